@@ -449,6 +449,313 @@ Proof.
   unfold generate_merkle_root. rewrite Hr. reflexivity.
 Qed.
 
+(* ------------------------------------------------------------------ the classes are exact: the commitment fails on them *)
+
+Fixpoint fringe (h : hv) : list N :=
+  match h with Leaf i => [i] | Node l r => fringe l ++ fringe r end.
+Definition ofringe (o : option hv) : list N := match o with Some h => fringe h | None => [] end.
+Definition lfringe (l : list (option hv)) : list N := flat_map ofringe l.
+(* the sequence of opaque leaf values under the root recomputed from a transaction list *)
+Definition txfringe (l : list tx) : list N := lfringe (leaves l).
+
+Lemma fringe_pos : forall h, (1 <= length (fringe h))%nat.
+Proof. induction h; cbn [fringe length]; [lia|rewrite app_length; lia]. Qed.
+
+Lemma lfringe_app : forall a b, lfringe (a ++ b) = lfringe a ++ lfringe b.
+Proof. intros. unfold lfringe. apply flat_map_app. Qed.
+
+Lemma txfringe_cons : forall x t, txfringe (x :: t) = lfringe (leaves_of x) ++ txfringe t.
+Proof. intros. unfold txfringe, leaves. cbn [flat_map]. apply lfringe_app. Qed.
+
+Lemma pair_level_fringe : forall l l', pair_level l = Ok l' -> lfringe l' = lfringe l.
+Proof.
+  induction l as [| x | x y t IH] using list_ind2; intros l' H; cbn [pair_level] in H.
+  - inversion H; reflexivity.
+  - destruct x; inversion H; reflexivity.
+  - destruct x as [a|]; [|discriminate]. destruct y as [b|]; [|discriminate].
+    destruct (pair_level t) as [r| |s]; cbn [bind] in H; try discriminate.
+    inversion H; subst. unfold lfringe in *. cbn [flat_map ofringe fringe].
+    rewrite (IH r eq_refl). rewrite <- app_assoc. reflexivity.
+Qed.
+
+Lemma reduce_fringe : forall fuel l r, reduce fuel l = Ok r -> ofringe r = lfringe l.
+Proof.
+  induction fuel as [|f IH]; intros l r H; destruct l as [|x [|y t]]; cbn [reduce] in H; try discriminate.
+  - inversion H; subst. unfold lfringe. cbn [flat_map]. rewrite app_nil_r. reflexivity.
+  - inversion H; subst. unfold lfringe. cbn [flat_map]. rewrite app_nil_r. reflexivity.
+  - destruct (pair_level (x :: y :: t)) as [l'| |s] eqn:Hp; cbn [bind] in H; try discriminate.
+    apply IH in H. rewrite H. apply pair_level_fringe. exact Hp.
+Qed.
+
+Lemma gmr_fringe : forall b h, generate_merkle_root b false false = Ok h -> b_txs b <> [] ->
+  fringe h = txfringe (b_txs b).
+Proof.
+  intros b h H Hne. unfold generate_merkle_root in H.
+  destruct (b_txs b) as [|x t] eqn:E; [congruence|]. unfold merkle_root_of in H.
+  destruct (reduce _ _) as [r| |s] eqn:Hr; cbn [bind] in H; try discriminate.
+  destruct r as [h'|]; [|discriminate]. inversion H; subst.
+  apply reduce_fringe in Hr. exact Hr.
+Qed.
+
+(* equal roots over two non-empty transaction lists have equal leaf-value sequences *)
+Lemma equal_roots_equal_fringes : forall a b,
+  generate_merkle_root a false false = generate_merkle_root b false false ->
+  (exists h, generate_merkle_root b false false = Ok h) ->
+  b_txs a <> [] -> b_txs b <> [] -> txfringe (b_txs a) = txfringe (b_txs b).
+Proof.
+  intros a b He [h Hb] Ha Hbn. rewrite Hb in He.
+  rewrite <- (gmr_fringe _ _ He Ha), <- (gmr_fringe _ _ Hb Hbn). reflexivity.
+Qed.
+
+Lemma lfringe_repeat_len : forall h n,
+  length (lfringe (repeat (Some h) n)) = (n * length (fringe h))%nat.
+Proof.
+  intros h n. induction n as [|n IH]; [reflexivity|].
+  cbn [repeat]. unfold lfringe in *. cbn [flat_map ofringe]. rewrite app_length, IH. lia.
+Qed.
+
+(* leaves of a single-leaf entry *)
+Lemma leaves_of_single : forall t h, t_hfs t = Some h -> (1 <? t_repl t) = false ->
+  lfringe (leaves_of t) = fringe h.
+Proof.
+  intros t h Hh Hr. unfold leaves_of. rewrite Hr, Hh. unfold lfringe. cbn [flat_map ofringe].
+  apply app_nil_r.
+Qed.
+
+Definition flen (l : list tx) : nat := length (txfringe l).
+
+Lemma flen_cons : forall x t, flen (x :: t) = (length (lfringe (leaves_of x)) + flen t)%nat.
+Proof. intros. unfold flen. rewrite txfringe_cons, app_length. reflexivity. Qed.
+
+(* a merge strictly lengthens the leaf-value sequence: [h1; h2] becomes [h1 h2 h1 h2] *)
+Lemma merge_loop_flen : forall fuel l l', merge_loop fuel l = Ok l' ->
+  match l with [] => True | x :: t => head_ok x /\ Forall tail_ok t end ->
+  (flen l <= flen l')%nat /\ (no_merge l = false -> (flen l < flen l')%nat).
+Proof.
+  induction fuel as [|f IH]; intros l l' H Hinv; destruct l as [|x [|y t]]; cbn [merge_loop] in H;
+    try discriminate; try (inversion H; subst; split; [lia|cbn [no_merge]; discriminate]).
+  destruct Hinv as [[Hxh Hx] Ht]. inversion Ht as [|? ? [Hyh Hy] Ht']; subst.
+  destruct (mergeable x y) eqn:Hm.
+  - unfold mergeable in Hm. apply andb_true_iff in Hm as [Hm Hr]. apply andb_true_iff in Hm as [Sx Sy].
+    apply N.eqb_eq in Hr.
+    assert (Ry : t_repl y = 1) by (destruct Hy as [Hy|Hy]; [congruence|exact Hy]).
+    assert (Rx : t_repl x = 1) by congruence.
+    rewrite Rx in H. change (2 ^ 32 <=? 2 * 1) with false in H. cbv iota in H.
+    destruct (t_hfs x) as [a|] eqn:Ea; [|congruence]. destruct (t_hfs y) as [b|] eqn:Eb; [|congruence].
+    apply IH in H.
+    + destruct H as [Hle _].
+      assert (Hnew : flen (merged x (2 * 1) (Node a b) :: t)
+                     = (2 * (length (fringe a) + length (fringe b)) + flen t)%nat).
+      { rewrite flen_cons. f_equal. unfold leaves_of. cbn [merged t_repl t_hfs].
+        change (1 <? 2 * 1) with true. cbv iota. change (N.to_nat (2 * 1)) with 2%nat.
+        rewrite lfringe_repeat_len. cbn [fringe]. rewrite app_length. lia. }
+      assert (Hold : flen (x :: y :: t) = (length (fringe a) + length (fringe b) + flen t)%nat).
+      { rewrite !flen_cons.
+        rewrite (leaves_of_single x a Ea) by (rewrite Rx; reflexivity).
+        rewrite (leaves_of_single y b Eb) by (rewrite Ry; reflexivity). lia. }
+      pose proof (fringe_pos a). split; intros; lia.
+    + split; [|exact Ht']. split; [discriminate|]. right; right. reflexivity.
+  - destruct (merge_loop f t) as [r| |s] eqn:Hr; cbn [bind] in H; try discriminate.
+    inversion H; subst. apply IH in Hr.
+    + destruct Hr as [Hle Hlt]. rewrite !(flen_cons x), !(flen_cons y).
+      split; [lia|]. cbn [no_merge]. rewrite Hm. cbn [negb andb]. intro Hn. specialize (Hlt Hn). lia.
+    + destruct t as [|z t']; [exact I|]. inversion Ht' as [|? ? Hz Ht'']; subst.
+      split; [apply tail_head_ok; exact Hz|exact Ht''].
+Qed.
+
+Lemma pruned_inv : forall ks l, no_spv l -> all_hashed l ->
+  match map (prune1 ks) l with [] => True | x :: t => head_ok x /\ Forall tail_ok t end.
+Proof.
+  intros ks l Hs Hh. pose proof (pruned_tail_ok ks _ Hs Hh) as P.
+  destruct (map (prune1 ks) l) as [|x t]; [exact I|].
+  inversion P; subst. split; [apply tail_head_ok; assumption|assumption].
+Qed.
+
+Lemma aligned_nonempty : forall ks l, aligned_omitted ks l = true -> l <> [].
+Proof. intros ks [|x t] H; [discriminate|discriminate]. Qed.
+
+(* class 1 is exact: whenever a sibling pair is omitted as a whole (and no omitted transaction
+   counts for several leaves), the root recomputed from the lite block differs *)
+Lemma root_fails_on_merge : forall b ks l,
+  no_spv (b_txs b) -> all_hashed (b_txs b) ->
+  aligned_omitted ks (b_txs b) = true -> omitted_multi ks (b_txs b) = false ->
+  lite b ks = Ok l ->
+  generate_merkle_root l false false <> generate_merkle_root b false false.
+Proof.
+  intros b ks l Hs Hh Ha Hm H E.
+  destruct (lite_inv _ _ _ H) as (txs & mr & Hml & _ & Ht & _).
+  destruct (merge_loop_flen _ _ _ Hml (pruned_inv ks _ Hs Hh)) as [_ Hlt].
+  rewrite no_merge_pruned, Ha in Hlt by exact Hs. specialize (Hlt eq_refl).
+  assert (Hp : flen (map (prune1 ks) (b_txs b)) = flen (b_txs b))
+    by (unfold flen, txfringe; rewrite (leaves_pruned ks _ Hm); reflexivity).
+  rewrite Hp in Hlt.
+  assert (Hbn : b_txs b <> []) by (eapply aligned_nonempty; exact Ha).
+  assert (Hln : b_txs l <> []).
+  { intro Z. rewrite <- Ht, Z in Hlt. change (flen []) with 0%nat in Hlt. lia. }
+  pose proof (equal_roots_equal_fringes l b E (generate_merkle_root_total b false false Hh) Hln Hbn) as F.
+  rewrite Ht in F. unfold flen in Hlt. rewrite F in Hlt. lia.
+Qed.
+
+Lemma flen_pruned_multi : forall ks l, all_hashed l ->
+  (flen (map (prune1 ks) l) <= flen l)%nat /\
+  (omitted_multi ks l = true -> (flen (map (prune1 ks) l) < flen l)%nat).
+Proof.
+  intros ks l. induction l as [|x t IH]; intro Hh.
+  - cbn [map]. split; [lia|discriminate].
+  - inversion Hh as [|? ? Hx Ht]; subst. destruct (IH Ht) as [Hle Hlt].
+    cbn [map]. rewrite !flen_cons. unfold omitted_multi in *. cbn [existsb].
+    destruct (touches ks x) eqn:Tx; cbn [negb andb orb];
+      [rewrite (prune1_kept _ _ Tx)|rewrite (prune1_omitted _ _ Tx)].
+    + split; [lia|]. intro Hm. specialize (Hlt Hm). lia.
+    + destruct (t_hfs x) as [h|] eqn:Eh; [|congruence].
+      rewrite leaves_of_placeholder, Eh. unfold lfringe at 1 3. cbn [flat_map ofringe]. rewrite app_nil_r.
+      destruct (1 <? t_repl x) eqn:Er.
+      * assert (L : (2 * length (fringe h) <= length (lfringe (leaves_of x)))%nat).
+        { unfold leaves_of. rewrite Er, Eh. rewrite lfringe_repeat_len.
+          assert (2 <= N.to_nat (t_repl x))%nat by lia. nia. }
+        pose proof (fringe_pos h). split; intros; lia.
+      * rewrite (leaves_of_single x h Eh Er). cbn [orb]. split; [lia|]. intro Hm. specialize (Hlt Hm). lia.
+Qed.
+
+Lemma omitted_multi_nonempty : forall ks l, omitted_multi ks l = true -> l <> [].
+Proof. intros ks [|x t] H; [discriminate|discriminate]. Qed.
+
+(* class 2 is exact (when nothing is merged) *)
+Lemma root_fails_on_replacements : forall b ks l,
+  no_spv (b_txs b) -> all_hashed (b_txs b) ->
+  aligned_omitted ks (b_txs b) = false -> omitted_multi ks (b_txs b) = true ->
+  lite b ks = Ok l ->
+  generate_merkle_root l false false <> generate_merkle_root b false false.
+Proof.
+  intros b ks l Hs Hh Ha Hm H E.
+  pose proof (lite_txs_unmerged _ _ _ Hs Ha H) as Ht.
+  destruct (flen_pruned_multi ks _ Hh) as [_ Hlt]. specialize (Hlt Hm).
+  assert (Hbn : b_txs b <> []) by (eapply omitted_multi_nonempty; exact Hm).
+  assert (Hln : b_txs l <> []).
+  { rewrite Ht. destruct (b_txs b); [congruence|discriminate]. }
+  pose proof (equal_roots_equal_fringes l b E (generate_merkle_root_total b false false Hh) Hln Hbn) as F.
+  unfold flen in Hlt. rewrite <- Ht, F in Hlt. lia.
+Qed.
+
+(* --- after the wire trip --- *)
+
+Lemma receive_txs : forall l c, receive l = Ok c -> b_txs c = map rehash (map clear_hfs (b_txs l)).
+Proof.
+  intros l c H. unfold receive, generate, wire in H. cbn [b_hdr b_txs b_hash] in H.
+  destruct (if hv_eqb _ _ then _ else _) as [mr| |s]; cbn [bind] in H; try discriminate.
+  inversion H; reflexivity.
+Qed.
+
+(* placeholders keep the signature prefix of a transaction of the pruned list, and do not disappear *)
+Lemma merge_loop_spv_sig : forall fuel l l', merge_loop fuel l = Ok l' ->
+  forall e, In e l' -> is_spv e = true ->
+  exists x, In x l /\ is_spv x = true /\ t_sig32 e = t_sig32 x.
+Proof.
+  induction fuel as [|f IH]; intros l l' H e He Se; destruct l as [|x [|y t]]; cbn [merge_loop] in H;
+    try discriminate; try solve [inversion H; subst; exists e; auto].
+  destruct (mergeable x y) eqn:Hm.
+  - destruct (2 ^ 32 <=? 2 * t_repl x); [discriminate|].
+    destruct (t_hfs x) as [a|]; [|discriminate]. destruct (t_hfs y) as [b|]; [|discriminate].
+    destruct (IH _ _ H e He Se) as (z & Hz & Sz & Ez).
+    destruct Hz as [Hz|Hz].
+    + subst z. exists x. split; [left; reflexivity|]. split; [exact Sz|exact Ez].
+    + exists z. split; [right; right; exact Hz|]. split; assumption.
+  - destruct (merge_loop f t) as [r| |s] eqn:Hr; cbn [bind] in H; try discriminate.
+    inversion H; subst. destruct He as [He|[He|He]].
+    + subst. exists e. split; [left; reflexivity|auto].
+    + subst. exists e. split; [right; left; reflexivity|auto].
+    + destruct (IH _ _ Hr e He Se) as (z & Hz & Sz & Ez). exists z. split; [right; right; exact Hz|auto].
+Qed.
+
+Lemma merge_loop_spv_stays : forall fuel l l', merge_loop fuel l = Ok l' ->
+  (exists x, In x l /\ is_spv x = true) -> exists e, In e l' /\ is_spv e = true.
+Proof.
+  induction fuel as [|f IH]; intros l l' H Hex; destruct l as [|x [|y t]]; cbn [merge_loop] in H;
+    try discriminate; try (inversion H; subst; exact Hex).
+  destruct (mergeable x y) eqn:Hm.
+  - destruct (2 ^ 32 <=? 2 * t_repl x); [discriminate|].
+    destruct (t_hfs x) as [a|]; [|discriminate]. destruct (t_hfs y) as [b|]; [|discriminate].
+    apply (IH _ _ H). unfold mergeable in Hm. apply andb_true_iff in Hm as [Hm _].
+    apply andb_true_iff in Hm as [Sx _].
+    exists (merged x (2 * t_repl x) (Node a b)). split; [left; reflexivity|exact Sx].
+  - destruct (merge_loop f t) as [r| |s] eqn:Hr; cbn [bind] in H; try discriminate.
+    inversion H; subst. destruct Hex as (z & [Hz|[Hz|Hz]] & Sz).
+    + subst. exists z. split; [left; reflexivity|exact Sz].
+    + subst. exists z. split; [right; left; reflexivity|exact Sz].
+    + destruct (IH _ _ Hr) as (e & He & Se); [exists z; auto|].
+      exists e. split; [right; right; exact He|exact Se].
+Qed.
+
+Lemma in_fringe_rehashed : forall e l, In e l ->
+  In (if is_spv e then t_sig32 e else t_chash e) (txfringe (map rehash (map clear_hfs l))).
+Proof.
+  intros e l. induction l as [|x t IH]; intro H; [contradiction|].
+  cbn [map]. rewrite txfringe_cons. apply in_or_app. destruct H as [H|H].
+  - subst x. left. unfold leaves_of. cbn [rehash clear_hfs t_repl t_hfs t_ty is_spv].
+    fold (is_spv e).
+    destruct (1 <? t_repl e) eqn:Er.
+    + destruct (N.to_nat (t_repl e)) as [|n] eqn:En; [lia|].
+      cbn [repeat]. unfold lfringe. cbn [flat_map ofringe fringe]. left. reflexivity.
+    + unfold lfringe. cbn [flat_map ofringe fringe]. left. reflexivity.
+  - right. apply IH. exact H.
+Qed.
+
+Lemma fringe_full_chash : forall l, no_spv l -> Forall tx_generated l ->
+  forall i, In i (txfringe l) -> exists u, In u l /\ i = t_chash u.
+Proof.
+  induction l as [|x t IH]; intros Hs Hg i Hi; [contradiction|].
+  inversion Hs as [|? ? Sx St]; inversion Hg as [|? ? Gx Gt]; subst.
+  rewrite txfringe_cons in Hi. apply in_app_or in Hi as [Hi|Hi].
+  - exists x. split; [left; reflexivity|].
+    unfold tx_generated, rehash in Gx. rewrite Sx in Gx.
+    assert (Eh : t_hfs x = Some (Leaf (t_chash x))) by (rewrite <- Gx at 1; reflexivity).
+    unfold leaves_of in Hi. rewrite Eh in Hi. destruct (1 <? t_repl x).
+    + unfold lfringe in Hi. apply in_flat_map in Hi as (o & Ho & Hio).
+      apply repeat_spec in Ho. subst o. cbn [ofringe fringe] in Hio. destruct Hio as [Hio|[]]. congruence.
+    + unfold lfringe in Hi. cbn [flat_map ofringe fringe app] in Hi. destruct Hi as [Hi|[]]. congruence.
+  - destruct (IH St Gt i Hi) as (u & Hu & Eu). exists u. split; [right; exact Hu|exact Eu].
+Qed.
+
+Lemma some_omitted_in : forall ks l, some_omitted ks l = true ->
+  exists t, In t l /\ touches ks t = false.
+Proof.
+  intros ks l H. unfold some_omitted in H. apply existsb_exists in H as (t & Ht & Hn).
+  exists t. split; [exact Ht|]. apply negb_true_iff in Hn. exact Hn.
+Qed.
+
+(* class 3 is exact: whenever anything is omitted, the root recomputed by the client differs —
+   provided no signature prefix happens to equal a transaction hash of the block *)
+Lemma root_fails_on_wire : forall b ks l c,
+  no_spv (b_txs b) -> generated b ->
+  (forall t u, In t (b_txs b) -> In u (b_txs b) -> t_sig32 t <> t_chash u) ->
+  some_omitted ks (b_txs b) = true ->
+  lite b ks = Ok l -> receive l = Ok c ->
+  generate_merkle_root c false false <> generate_merkle_root b false false.
+Proof.
+  intros b ks l c Hs Hg Hfresh Ho H Hc E.
+  pose proof (generated_all_hashed _ Hg) as Hh. destruct Hg as [_ Hg].
+  destruct (lite_inv _ _ _ H) as (txs & mr & Hml & _ & Ht & _).
+  destruct (some_omitted_in _ _ Ho) as (t0 & Ht0 & Tt0).
+  (* a placeholder survives in the lite block, with the signature prefix of an omitted transaction *)
+  destruct (merge_loop_spv_stays _ _ _ Hml) as (e & He & Se).
+  { exists (placeholder t0). split; [|reflexivity].
+    apply in_map_iff. exists t0. split; [apply prune1_omitted; exact Tt0|exact Ht0]. }
+  destruct (merge_loop_spv_sig _ _ _ Hml e He Se) as (x & Hx & Sx & Ex).
+  apply in_map_iff in Hx as (t1 & Et1 & Ht1).
+  assert (Es : t_sig32 x = t_sig32 t1).
+  { subst x. unfold prune1. destruct (touches ks t1); reflexivity. }
+  (* its leaf value is under the client's root *)
+  pose proof (receive_txs _ _ Hc) as Hct.
+  assert (Hin : In (t_sig32 t1) (txfringe (b_txs c))).
+  { rewrite Hct, Ht. pose proof (in_fringe_rehashed e txs He) as P. rewrite Se in P. congruence. }
+  assert (Hbn : b_txs b <> []) by (destruct (b_txs b); [contradiction|discriminate]).
+  assert (Hcn : b_txs c <> []).
+  { intro Z. rewrite Z in Hin. contradiction. }
+  rewrite (equal_roots_equal_fringes c b E (generate_merkle_root_total b false false Hh) Hcn Hbn) in Hin.
+  destruct (fringe_full_chash _ Hs Hg _ Hin) as (u & Hu & Eu).
+  exact (Hfresh t1 u Ht1 Hu Eu).
+Qed.
+
 (* ------------------------------------------------------------------ the known classes *)
 
 (* the in-memory lite block: a sibling pair omitted as a whole (the loop merges it, and the merged
